@@ -109,6 +109,8 @@ var c08Faulty = []string{
 	"print 1 $",                             // lexical: unknown char
 	"def t f = 1 }",                         // expected {
 	"var = 1",                               // expected variable name
+	"eval 1 + $ print 2",                    // lexical failure where an operand is due
+	"var x = 1 print ( x $ ) print 3",       // lexical failure inside parentheses
 }
 
 var c08Runtime = []string{
@@ -213,6 +215,13 @@ func C08_CompileDiag() {
 	}
 	first := c08FirstLine(log.String())
 	verif.Observe("first", first)
+	// 'at end' designates the end of input and nothing else
+	endLoc := "line " + c08Loc(src, len(src)) + ":"
+	for _, l := range strings.Split(log.String(), "\n") {
+		if strings.Contains(l, " error at end: ") {
+			verif.Assert(strings.HasPrefix(l, endLoc), "'at end' only at the end of input")
+		}
+	}
 	verif.Assert(strings.HasPrefix(first, "line "+c08Loc(src, end)+":"+want), "first diagnostic designates the byte after the offending token and quotes it")
 	verif.Reach("checked")
 }
@@ -278,6 +287,10 @@ func C08_BigOffsets() {
 	stmt := "print 1/0"
 	var sb strings.Builder
 	line := "# 0123456789 0123456789 0123456789\n"
+	if verif.Choice("blank", 2) == 1 {
+		// blank lines only: far more line feeds than code bytes
+		line = "\n"
+	}
 	for sb.Len()+len(line) <= t-len(stmt) {
 		sb.WriteString(line)
 	}
